@@ -384,6 +384,31 @@ class SymStr:
     def lstrip(self, chars=None): return self._strip(chars, right=False)
 
     def split(self, sep=None, maxsplit=-1):
+        if sep is None and maxsplit == -1:
+            # whitespace splitting over the pieces: literal text char by char, a decimal rendering is one run of non-blanks,
+            # symbolic characters are decided one by one
+            out = []; cur = None
+            def put(x):
+                nonlocal cur
+                if cur is None: cur = []; out.append(cur)
+                if isinstance(x, str) and cur and isinstance(cur[-1], str): cur[-1] += x
+                else: cur.append(x)
+            for p in self.pieces:
+                if isinstance(p, str):
+                    for ch in p:
+                        if ch in ' \t\n\r\x0b\x0c' or (not self.isbytes and ch in '\x1c\x1d\x1e\x1f'): cur = None
+                        else: put(ch)
+                elif isinstance(p, Dec): put(p)
+                elif isinstance(p, Chars):
+                    for c in p.items:
+                        if _decide(_is_ws(c, self.isbytes)): cur = None
+                        else: put(Chars([c]))
+                else: raise Unsupported('split() over piece %r' % (p,))
+            res = []
+            for ps in out:
+                t = SymStr(ps, self.isbytes); c = t.concrete()
+                res.append(c if c is not None else t)
+            return res
         if sep != ' ' or maxsplit != -1: raise Unsupported('split(%r) on a symbolic string' % (sep,))
         out = [[]]
         for p in self.pieces:
@@ -1128,8 +1153,10 @@ class SymFile:
 _WS = (9, 10, 11, 12, 13, 28, 29, 30, 31, 32)
 
 
-def _is_ws(c):
-    if isinstance(c, int): return c in _WS
+def _is_ws(c, isbytes=False):
+    """whitespace as str.split()/strip() see it (ASCII range: 9..13, 28..32) or as bytes do (9..13, 32)"""
+    if isinstance(c, int): return (c in _WS) if not isbytes else (9 <= c <= 13 or c == 32)
+    if isbytes: return core.bor(core.band(c >= 9, c <= 13), core.eq(c, 32))
     return core.bor(core.band(c >= 9, c <= 13), core.band(c >= 28, c <= 32))
 
 
@@ -1202,18 +1229,27 @@ class SymChars:
 
     def strip(self, chars=None):
         it = list(self.items)
-        test = _is_ws if chars is None else (lambda c, cs=self._lit(chars): core.bor(*[core.eq(c, x) for x in cs]))
+        test = (lambda c: _is_ws(c, self.isbytes)) if chars is None else (lambda c, cs=self._lit(chars): core.bor(*[core.eq(c, x) for x in cs]))
         while it and _decide(test(it[0])): it.pop(0)
         while it and _decide(test(it[-1])): it.pop()
         return SymChars(it, self.isbytes)
 
     def split(self, sep=None, maxsplit=-1):
-        if sep is None or maxsplit != -1 or len(sep) != 1: raise Unsupported('split(%r) on symbolic text' % (sep,))
-        s = self._lit(sep)[0]
-        out = [[]]
-        for c in self.items:
-            if _decide(core.eq(c, s)): out.append([])
-            else: out[-1].append(c)
+        if maxsplit != -1 or (sep is not None and len(sep) != 1): raise Unsupported('split(%r) on symbolic text' % (sep,))
+        if sep is None:
+            # whitespace splitting: runs of whitespace separate, no empty strings
+            out = []; cur = None
+            for c in self.items:
+                if _decide(_is_ws(c, self.isbytes)): cur = None
+                else:
+                    if cur is None: cur = []; out.append(cur)
+                    cur.append(c)
+        else:
+            s = self._lit(sep)[0]
+            out = [[]]
+            for c in self.items:
+                if _decide(core.eq(c, s)): out.append([])
+                else: out[-1].append(c)
         res = []
         for it in out:
             t = SymChars(it, self.isbytes)
